@@ -53,7 +53,10 @@ def convert(path):
             for k in FIELDS:
                 ev[k] = ""
             d = defs.get(tok[0]) if tok else None
-            if d is not None and len(tok) - 1 <= len(d[1]):
+            ev["extra_fields"] = max(0, len(tok) - 1 - len(d[1])) if d is not None else 0
+            # more fields than the %EventDef declares (SimGrid appends the size / call-location fields of PushState to
+            # every state event): outside the four conditions of C47; counted, and the declared fields are used
+            if d is not None:
                 name = d[0][4:] if d[0].startswith("Paje") else d[0]
                 ev["e"] = name
                 for (fname, ftype), val in zip(d[1], tok[1:]):
